@@ -318,12 +318,22 @@ def run(facts, chk, tier, only=None):
     def cutoff():
         bad = []
         n = 0
+        fcb = facts.fn(CV + 'find_cutoff')
+        callees = {}
+        for _, t in fcb.calls():
+            nm = t.callee.name or ''
+            if t.callee.krate == 'ska' and nm in facts.by_name and len(facts.by_name[nm]) == 1:
+                callees[nm] = facts.by_name[nm][0].arg_count
+        fa = [nm for nm, ac in callees.items() if ac == 2]
+        fb = [nm for nm, ac in callees.items() if ac == 3]
+        if len(fa) != 1 or len(fb) != 1:
+            raise AnchorLost('find_cutoff: the error / coverage component functions (2 / 3 parameters) are not its only crate-local callees: %s' % callees)
         for L in range(0, 7):
             for pat in itertools.product((0, 1), repeat=L):      # pat[j] = 1 <=> root at cutoff j+1 is negative
                 for cap in range(1, 8):
                     I = Interp(facts)
-                    I.overrides[CV + 'a'] = lambda I_, a, t, c, pat=pat: (-1.0 if (int(a[1]) - 1) < len(pat) and pat[int(a[1]) - 1] else 1.0)
-                    I.overrides[CV + 'b'] = lambda I_, a, t, c: 0.0
+                    I.overrides[fa[0]] = lambda I_, a, t, c, pat=pat: (-1.0 if (int(a[1]) - 1) < len(pat) and pat[int(a[1]) - 1] else 1.0)
+                    I.overrides[fb[0]] = lambda I_, a, t, c: 0.0
                     pars = Cell(Agg('array', 0, [0.8, 20.0]), 'pars')
                     r = I.call_fn(CV + 'find_cutoff', [RefV(pars, (), (0, 2)), BV(64, cap)])
                     want = cap
